@@ -129,8 +129,14 @@ def fake_sample(gene, eqs=None):
     return s
 
 
+def qf(x):
+    """qualities are small integers or means of two or three of them: compare as the nearest fraction with a
+    small denominator (the implementation's float mean vs the model's exact rational)"""
+    return Fraction(x).limit_denominator(10000)
+
+
 def canon_obs(lst):
-    return sorted((Fraction(a), Fraction(b)) for a, b in lst)
+    return sorted((qf(a), qf(b)) for a, b in lst)
 
 
 def reported_indels(gene, rd):
@@ -193,7 +199,7 @@ def lean_events_table(events):
     t = {}
     for evs in events:
         for p, o, a, b in evs:
-            t.setdefault((p, o), []).append((Fraction(a), Fraction(b)))
+            t.setdefault((p, o), []).append((qf(a), qf(b)))
     return {k: sorted(v) for k, v in t.items()}
 
 
@@ -360,7 +366,7 @@ def tie(ctx):
                 for op, l in ops:
                     if truthy and op.startswith("ins"):
                         continue
-                    model_t[(p, op)] = sorted((Fraction(a), Fraction(b)) for a, b in l)
+                    model_t[(p, op)] = sorted((qf(a), qf(b)) for a, b in l)
             if real_t != model_t:
                 k = [x for x in sorted(set(real_t) | set(model_t)) if real_t.get(x) != model_t.get(x)][:3]
                 fam["sample_bam"]["disagreements"].append({"why": f"Sample.coverage differs from the model at {k}: impl {[len(real_t.get(x, [])) for x in k]} model {[len(model_t.get(x, [])) for x in k]} observations",
